@@ -66,7 +66,9 @@ OnMsgEv ==
                  THEN [first EXCEPT ![Line.node] = @ \cup {<<Line.kind, Line.from, Line.h>>}] ELSE first
   /\ SetDrift(IF Line.kind \in 1..3 /\ Line.bc # (Line.kind # 1) THEN "message class differs from the protocol (shares are point-to-point, commitments and reveals broadcast)" ELSE "")
   \* C01: the barrier of the orchestrator: no protocol message is handed to a back end that has not been initialised
-  /\ Check({<<"InitBeforeFirstMessage", Line.node \in inited>>})
+  \* silent mode (invariant HandOverAfterOwnSend of spec/Barrier.tla): the buffer holds everything until the node itself has sent
+  /\ Check({<<"InitBeforeFirstMessage", Line.node \in inited>>,
+            <<"HandOverAfterOwnSend", (cfg.mode = "silent" /\ Line.node \in DOMAIN emitted) => emitted[Line.node] # <<>> >>})
   /\ UNCHANGED <<tid, cfg, inited, emitted, rets, signbad, sgrets, crashed>>
 
 \* a message emitted by the back end of an honest node: the phase structure of DKG.tla
@@ -82,8 +84,16 @@ SendEv ==
                  ELSE IF Line.kind \in {2, 3} /\ ~Line.bc THEN "commitment / reveal sent point-to-point"
                  ELSE "")
      /\ Check({\* C05: no honest party discloses its public-key contribution before it holds the commitments of all others
-               <<"RevealOnlyAfterAllCommits", (honest /\ Line.kind = 3) => got[x][2] = others>>})
+               <<"RevealOnlyAfterAllCommits", (honest /\ Line.kind = 3) => got[x][2] = others>>,
+               \* C01, the start-up barrier (invariant FirstSendAfterAllInit of spec/Barrier.tla): in loud mode nobody sends a protocol
+               \* message before the back end of EVERY member has been initialised (protocol messages are never retransmitted)
+               <<"FirstSendAfterAllInit", (honest /\ cfg.mode = "loud") => inited = Nodes>>})
   /\ UNCHANGED <<tid, cfg, got, first, inited, rets, signbad, sgrets, crashed>>
+
+\* a node calls KeyGen (late callers: the start-up barrier)
+CallEv ==
+  /\ Line.e = "call"
+  /\ UNCHANGED <<tid, cfg, got, first, inited, emitted, rets, signbad, sgrets, crashed, drift, viol>>
 
 RetEv ==
   /\ Line.e = "kgret"
@@ -135,5 +145,5 @@ EndEv ==
   /\ UNCHANGED <<tid, cfg, got, first, inited, emitted, rets, signbad, sgrets, crashed, drift>>
 
 Next == /\ l <= Len(Trace) /\ l' = l + 1
-        /\ (Reset \/ InitEv \/ OnMsgEv \/ SendEv \/ RetEv \/ SignEv \/ SgRetEv \/ CrashEv \/ EndEv)
+        /\ (Reset \/ CallEv \/ InitEv \/ OnMsgEv \/ SendEv \/ RetEv \/ SignEv \/ SgRetEv \/ CrashEv \/ EndEv)
 =============================================================================
